@@ -296,23 +296,6 @@ def check_history(run, probe, history, probes, ptexts):
                      dict(case, failing_text=text),
                      "the re-used parser reads %r after failing calls %s, %r on the twin\n text=%s" % (
                          _brief(A.env, a), sorted(set(kinds)), _brief(Bw.env, b), text[:400]))
-    # the failing calls themselves, made again: in the twin they are made for the first time, so that is what
-    # they return "had the failing call never been made" (done last: it makes the twin see failures too)
-    for item in history:
-        if item[0] != "fail":
-            continue
-        A.last_exc = Bw.last_exc = None
-        ra, rb = do_fail(A, item[1]), do_fail(Bw, item[1])
-        run.cls("probe:repeat-failing-call")
-        # text-based calls may legitimately fail differently (a failed script / construction leaves the symbols it
-        # created, by design); for them only raised-vs-returned is compared
-        same_symbols = item[1][0] in ("construct", "substitute", "size-measure", "array-nonconst-key", "fi-free-vars",
-                                      "cnf-quantified", "qelim-nonbool")
-        if ra != rb or (same_symbols and A.last_exc != Bw.last_exc):
-            run.fail({"subcheck": "trace:repeat-differs", "kind": item[1][0]}, dict(case, failing=item[1]),
-                     "the call %s made again after it failed: %s; made for the first time on the twin: %s" % (
-                         show(item[1], 200) if False else repr(item[1])[:300],
-                         "raised " + str(A.last_exc) if ra else "returned", "raised " + str(Bw.last_exc) if rb else "returned"))
     # the long-lived DAG printer object: what it prints must read back as the formula, on both sides alike
     try:
         if reftype(probe) == BOOL:
@@ -333,6 +316,23 @@ def check_history(run, probe, history, probes, ptexts):
                          "text of the re-used SmtDagPrinter read back: %s after failing calls %s, %s on the twin" % (outs[0], sorted(set(kinds)), outs[1]))
     except IllTyped:
         pass
+    # the failing calls themselves, made again: in the twin they are made for the first time, so that is what
+    # they return "had the failing call never been made" (done last: it makes the twin see failures too)
+    for item in history:
+        if item[0] != "fail":
+            continue
+        A.last_exc = Bw.last_exc = None
+        ra, rb = do_fail(A, item[1]), do_fail(Bw, item[1])
+        run.cls("probe:repeat-failing-call")
+        # text-based calls may legitimately fail differently (a failed script / construction leaves the symbols it
+        # created, by design); for them only raised-vs-returned is compared
+        same_symbols = item[1][0] in ("construct", "substitute", "size-measure", "array-nonconst-key", "fi-free-vars",
+                                      "cnf-quantified", "qelim-nonbool")
+        if ra != rb or (same_symbols and A.last_exc != Bw.last_exc):
+            run.fail({"subcheck": "trace:repeat-differs", "kind": item[1][0]}, dict(case, failing=item[1]),
+                     "the call %s made again after it failed: %s; made for the first time on the twin: %s" % (
+                         show(item[1], 200) if False else repr(item[1])[:300],
+                         "raised " + str(A.last_exc) if ra else "returned", "raised " + str(Bw.last_exc) if rb else "returned"))
     run.extra["matrix_cells"] = len(getattr(run, "nontrivial_cells", ()))
 
 
